@@ -499,8 +499,8 @@ func (fr *Frame) execInstr(in ssa.Instruction) {
 		dom := fr.R.Heap.Get(fr.st, dn, ArraySort(SInt, ArraySort(ks, SBool)))
 		empty := T(fmt.Sprintf("((as const %s) false)", ArraySort(ks, SBool)), ArraySort(ks, SBool))
 		fr.R.Heap.Set(fr.st, dn, fr.define("h", Store(dom, ref, empty)))
-		ln := fr.R.Heap.Get(fr.st, mapLenComp, ArraySort(SInt, SInt))
-		fr.R.Heap.Set(fr.st, mapLenComp, fr.define("h", Store(ln, ref, IntLit(0))))
+		ln := fr.R.Heap.Get(fr.st, mapLenComp(mt), ArraySort(SInt, SInt))
+		fr.R.Heap.Set(fr.st, mapLenComp(mt), fr.define("h", Store(ln, ref, IntLit(0))))
 		fr.env[in] = TV(ref)
 	case *ssa.MakeSlice:
 		ref := fr.alloc("mkslice")
@@ -1019,8 +1019,8 @@ func (fr *Frame) mapVals(m Term, mt *types.Map) Term {
 	return Select(fr.R.Heap.Get(fr.st, mapValComp(mt), ArraySort(SInt, ArraySort(ks, vs))), m, ArraySort(ks, vs))
 }
 
-func (fr *Frame) mapLen(m Term) Term {
-	l := Select(fr.R.Heap.Get(fr.st, mapLenComp, ArraySort(SInt, SInt)), m, SInt)
+func (fr *Frame) mapLen(m Term, mt *types.Map) Term {
+	l := Select(fr.R.Heap.Get(fr.st, mapLenComp(mt), ArraySort(SInt, SInt)), m, SInt)
 	return l
 }
 
@@ -1054,8 +1054,8 @@ func (fr *Frame) mapUpdate(m Term, mt *types.Map, k, v Term) {
 	was := fr.define("was", Select(dom, k, SBool))
 	h.Set(fr.st, dn, fr.define("h", Store(domAll, m, Store(dom, k, True))))
 	h.Set(fr.st, vn, fr.define("h", Store(valAll, m, Store(Select(valAll, m, ArraySort(ks, vs)), k, v))))
-	ln := h.Get(fr.st, mapLenComp, ArraySort(SInt, SInt))
-	h.Set(fr.st, mapLenComp, fr.define("h", Store(ln, m, Add(Select(ln, m, SInt), Ite(was, IntLit(0), IntLit(1))))))
+	ln := h.Get(fr.st, mapLenComp(mt), ArraySort(SInt, SInt))
+	h.Set(fr.st, mapLenComp(mt), fr.define("h", Store(ln, m, Add(Select(ln, m, SInt), Ite(was, IntLit(0), IntLit(1))))))
 }
 
 func (fr *Frame) mapDelete(m Term, mt *types.Map, k Term) {
@@ -1067,8 +1067,8 @@ func (fr *Frame) mapDelete(m Term, mt *types.Map, k Term) {
 	was := fr.define("was", And(Not(Eq(m, Nil)), Select(dom, k, SBool)))
 	// delete on a nil map is a no-op
 	h.Set(fr.st, dn, fr.define("h", Ite(Eq(m, Nil), domAll, Store(domAll, m, Store(dom, k, False)))))
-	ln := h.Get(fr.st, mapLenComp, ArraySort(SInt, SInt))
-	h.Set(fr.st, mapLenComp, fr.define("h", Ite(Eq(m, Nil), ln, Store(ln, m, Sub(Select(ln, m, SInt), Ite(was, IntLit(1), IntLit(0)))))))
+	ln := h.Get(fr.st, mapLenComp(mt), ArraySort(SInt, SInt))
+	h.Set(fr.st, mapLenComp(mt), fr.define("h", Ite(Eq(m, Nil), ln, Store(ln, m, Sub(Select(ln, m, SInt), Ite(was, IntLit(1), IntLit(0)))))))
 }
 
 func isStructType(t types.Type) bool {
